@@ -146,8 +146,43 @@ class Package:
                     if usable(callee):
                         return callee, None
                 return None
-            cache[key] = expand_helpers(fn, resolve)
+            fn = expand_helpers(fn, resolve)
+            # a helper that loops over a table it is HANDED (`self._register_all(self._ROWS)`) is a static loop once it is back in
+            # place: unroll again, with the module-level and class-level tables of the class (MRO) in view
+            try:
+                from .normalize import unroll_static_loops, const_getattr
+                unroll_static_loops(fn, self.module_tables(file), self.class_tables(cls), cls.split(".")[-1])
+                const_getattr(fn)
+            except RecursionError:
+                pass
+            cache[key] = fn
         return cache[key]
+
+    def module_tables(self, file: str) -> dict:
+        from .normalize import module_tables
+        cache = self.__dict__.setdefault("_mtables", {})
+        if file not in cache:
+            cache[file] = module_tables(self.modules[file]) if file in self.modules else {}
+        return cache[file]
+
+    def class_tables(self, cls: str) -> dict:
+        """class-level literal tables visible through self/cls in the methods of `cls`: those of its MRO, a class nearer to `cls`
+        re-binding the name (to a table or to anything else) hiding the inherited one"""
+        from .normalize import class_tables
+        cache = self.__dict__.setdefault("_ctables", {})
+        if cls not in cache:
+            out = {}
+            for c in reversed(self.mro(cls)):
+                ci = self.classes.get(c)
+                if ci is None:
+                    continue
+                for nm in ci.attrs:
+                    out.pop(nm, None)
+                for nm in ci.methods:
+                    out.pop(nm, None)
+                out.update(class_tables(ci.node, self.modules.get(ci.file)))
+            cache[cls] = out
+        return cache[cls]
 
     def subclasses(self, base: str) -> list:
         return [c for c in self.classes if base in self.mro(c)[1:]]
